@@ -35,7 +35,7 @@ type controller struct {
 	enabled map[string]bool
 	curProc string // process whose step is being executed (owner of goroutines the library spawns)
 	arrived []string
-	emit    func(J) // event sink of the running scenario
+	emit    func(J)    // event sink of the running scenario
 	lin     sync.Mutex // makes "delegate call + its event" one atomic unit, so that events are logged in linearisation order
 }
 
